@@ -104,6 +104,18 @@ class Machine(object):
                     % (opname, tw, tot, {repr(ITEMS[i]): w for i, w in bag.items()}))
         self.last_probed = False
         if tot > 0:
+            # "zero-weight candidates are never selected" holds for EVERY outcome of the draws, the
+            # uniform 0.0 included: script the proposal of each zero-weight member followed by u = 0.0
+            items = list(getattr(ld, "items", []))
+            for pos, it in enumerate(items):
+                ii = [i for i in bag if ITEMS[i] == it]
+                if ii and bag[ii[0]] == 0:
+                    c = copy.deepcopy(ld)
+                    r = run_under(SimRandom(SCRIPTED, script=[("c", pos), ("r", 0.0)]), c.choose_random)
+                    if r.status == "done" and r.value == it:
+                        return ("selection_law", "after %s: zero-weight candidate %r is selected when the accept draw is "
+                                "exactly 0.0 (weights %r)" % (opname, it, {repr(ITEMS[i]): w for i, w in bag.items()}))
+                    self.stats["zero_weight_boundary_probes"] = self.stats.get("zero_weight_boundary_probes", 0) + 1
             self.last_probed = sum(1 for w in bag.values() if w > 0) >= 2
             code, ref, leaves = self.law()
             bad = compare_laws(code, ref, 1e-8)
@@ -296,3 +308,45 @@ def shrink_ops(ops, cls_name):
                 ops = cand
                 changed = True
     return ops
+
+
+def sample_check(rng, stats, nops=25, ndraws=40000):
+    """Implementation-agnostic back-up of the explorer: a seeded history in a wide weight regime, then
+    ndraws real choose_random() calls under a seeded stream; exact binomial test of every candidate's
+    frequency against weight/sum (total false-alarm probability 1e-9 per invocation, split over the
+    cells of this sample by the caller).  Sees what enumeration of one draw tree cannot: behaviour that
+    depends on how often the rejection loop has already gone round."""
+    import random as _r
+    from . import lawtest
+    cls = get_class()
+    if cls is None:
+        raise Skip("class _ListDict_ not found")
+    m = Machine(cls)
+    m.stats = {}
+    ops = []
+    scale = 1.0
+    pool = [1e-3, 0.02, 0.3, 1.0, 7.0, 250.0, 1e3, 1.0, 1.0]
+    for _ in range(nops):
+        c = rng.random()
+        if not m.bag or c < 0.55:
+            op = ["insert", rng.randrange(len(ITEMS)), rng.choice(pool)]
+        elif c < 0.7:
+            op = ["update", rng.choice(sorted(m.bag)), rng.choice([0.3, 1.0, 250.0])]
+        elif c < 0.9:
+            op = ["remove", rng.choice(sorted(m.bag))]
+        else:
+            op = ["insert", rng.choice(sorted(m.bag)), rng.choice(pool)]
+        ops.append(op)
+        m.apply(op)
+    tot = sum(m.bag.values())
+    if tot <= 0 or len(m.bag) < 2:
+        return None, ops, 0
+    seed = rng.getrandbits(40)
+    counts = {}
+    with lawtest.fast_seeded(seed):
+        for _ in range(ndraws):
+            it = m.ld.choose_random()
+            counts[repr(it)] = counts.get(repr(it), 0) + 1
+    expected = {repr(ITEMS[i]): w / tot for i, w in m.bag.items()}
+    cells = lawtest.test_cells(ndraws, counts, expected, min_expected=5.0)
+    return (cells, ndraws, {repr(ITEMS[i]): w for i, w in m.bag.items()}), ops, len(cells)
